@@ -376,4 +376,104 @@ def applyEv (c : Cfg) (s : LH) : Ev → LH
   | .read id pref => onList s id (fun rl => rebuild rl (some (shouldAddAll c)) pref)
   | .query vs => queryCache s vs
 
+
+/-! ### configuration reloads (`LightHouse.reload(c, initial = false)`) -/
+
+/-- the reloadable configuration values the lighthouse reads, as written in the configuration file. -/
+structure RawCfg where
+  /-- `lighthouse.hosts` -/
+  hosts : List Addr := []
+  /-- `static_host_map` (IP literals) -/
+  statics : List (Addr × List AP) := []
+  /-- `lighthouse.remote_allow_list` (`none` = key absent) -/
+  g : Option (List AllowList.Entry) := none
+  /-- `lighthouse.remote_allow_ranges` -/
+  ranges : List AllowList.RangeEntry := []
+  /-- `lighthouse.am_lighthouse`: read once by `NewLightHouseFromConfig`, NOT by `reload` -/
+  amLighthouse : Bool := false
+  deriving DecidableEq
+
+/-- a running node: configuration in force, cache, and the configuration file as last (re)loaded (what
+`config.C.HasChanged` compares against). -/
+structure Node where
+  cfg : Cfg
+  lh : LH
+  raw : RawCfg
+
+/-- `NewRemoteAllowListFromConfig`. -/
+def parseRemoteAllow (g : Option (List AllowList.Entry)) (ranges : List AllowList.RangeEntry) :
+    Except AllowList.Err AllowList.Remote :=
+  let al : Except AllowList.Err (Option (AllowList.Table Bool)) :=
+    match g with
+    | none => .ok none
+    | some es => (AllowList.newAllowList es).map some
+  match al with
+  | .error e => .error e
+  | .ok al =>
+    if ranges.isEmpty then .ok { allowList := al, inside := none }
+    else match AllowList.rangesLoop [] ranges with
+      | .error e => .error e
+      | .ok t => .ok { allowList := al, inside := some t }
+
+/-- the `static_host_map` block of `reload`: reset what I own in the old static lists, re-add the configured
+entries, drop the resolved sets of entries that are gone, publish the new static list. -/
+def reloadStatics (c : Cfg) (s : LH) (new : List (Addr × List AP)) : Cfg × LH :=
+  let s := c.staticList.foldl (fun s v => match s.lookup v with
+    | some id => onList s id (fun rl => resetForOwner rl c.me)
+    | none => s) s
+  let s := new.foldl (fun s e => addStatic c s e.1 e.2) s
+  let newKeys := new.map (·.1)
+  let s := c.staticList.foldl (fun s v =>
+    if memB newKeys v then s else match s.lookup v with
+      | some id => onList s id clearHostnameResults
+      | none => s) s
+  ({ c with staticList := newKeys }, s)
+
+/-- `parseLighthouses` + `lh.lighthouses.Store`: refused (list unchanged) when a host has no static entry. -/
+def reloadHosts (c : Cfg) (hosts : List Addr) : Cfg :=
+  if hosts.all (fun h => memB c.staticList h) then { c with lighthouses := hosts } else c
+
+/-- the static-map block, then the hosts block. -/
+def reloadApply (c0 : Cfg) (s0 : LH) (chS chH : Bool) (new : RawCfg) : Cfg × LH :=
+  let cs := if chS then reloadStatics c0 s0 new.statics else (c0, s0)
+  let c := if chH then reloadHosts cs.1 new.hosts else cs.1
+  (c, cs.2)
+
+/-- `LightHouse.reload(c, false)` for the keys modelled here, in the order of the code: remote allow list
+(an invalid list aborts the reload), static host map, lighthouse hosts. Each block runs only when its keys
+changed (`HasChanged`). `am_lighthouse` is not reloadable. -/
+def reloadNode (n : Node) (new : RawCfg) : Node :=
+  let chA := decide (new.g ≠ n.raw.g ∨ new.ranges ≠ n.raw.ranges)
+  let chS := decide (new.statics ≠ n.raw.statics)
+  let chH := decide (new.hosts ≠ n.raw.hosts)
+  let afterAllow : Option Cfg :=
+    if chA then
+      match parseRemoteAllow new.g new.ranges with
+      | .error _ => none
+      | .ok ral => some { n.cfg with ral := ral }
+    else some n.cfg
+  match afterAllow with
+  | none => { cfg := n.cfg, lh := n.lh, raw := new }
+  | some c => let r := reloadApply c n.lh chS chH new; { cfg := r.1, lh := r.2, raw := new }
+
+/-- the static list in force after the static block of a reload. -/
+def staticsAfter (n : Node) (new : RawCfg) : List Addr :=
+  if new.statics ≠ n.raw.statics then new.statics.map (·.1) else n.cfg.staticList
+
+/-- events of a node's life: everything of `Ev` under the configuration in force, plus reloads. -/
+inductive NEv where
+  | ev (e : Ev)
+  | reload (new : RawCfg)
+
+/-- one step, with what the node sent / scheduled (non-message events produce nothing here). -/
+def stepNode (n : Node) : NEv → Node × Outp
+  | .ev (.msg f m) => let r := handleRequest n.cfg n.lh f m; ({ n with lh := r.1 }, r.2)
+  | .ev e => ({ n with lh := applyEv n.cfg n.lh e }, {})
+  | .reload new => (reloadNode n new, {})
+
+/-- the run of a history: for every step the node before, the event, the node after and the output. -/
+def runTrace : Node → List NEv → List (Node × NEv × Node × Outp)
+  | _, [] => []
+  | n, e :: rest => let r := stepNode n e; (n, e, r.1, r.2) :: runTrace r.1 rest
+
 end Nebula.Lighthouse
